@@ -15,7 +15,7 @@ CLAIMED = {
  "C07": ("deterministic simulation: scheduler injects CheckTx calls at every before/after site of every consensus call on noisy replicas; transcript equality against a quiet replica",
          "Seeded search over interleavings of CheckTx (valid, invalid, state-writing kinds, the block's own transactions before and after delivery) with the consensus call sequence; noisy replicas must return exactly the quiet replica's hashes, validator updates, DeliverTx results (code, data, gas, events) and Begin/EndBlock events; CheckTx material includes mempool-only transactions (config proposals of every option family, finalisation of passed proposals) that are never delivered.",
          "CheckTx is injected only when a real node's mempool can be up (after InitChain returned, not during handshake replay). All calls are serialised as the local ABCI client serialises them; true data races with RPC readers are out of scope."),
- "C08": ("deterministic simulation with crash injection: victims are killed at PRNG-chosen ABCI boundaries (also during handshake replay), restarted from a byte copy of the open data directory through the real Handshaker; Info/handshake/transcript/liveness oracles",
+ "C08": ("deterministic simulation with crash injection: victims are killed at PRNG-chosen ABCI boundaries (also during handshake replay), restarted from a byte copy of the open data directory through the real Handshaker; Info/handshake/transcript/liveness oracles; plus kill-and-restart between blocks biased to blocks with block-hook activity",
          "Seeded search over crash points x block histories, including repeated crashes and crashes during recovery; after restart Info must equal the victim's last completed commit, the real Handshaker must complete, every re-executed block must reproduce the reference's results (code, data, gas and events of every transaction, validator updates, app hash), and victims must reach the tip once faults stop.",
          "Crash = process death (nothing the OS accepted is lost); power-loss/torn writes are not modelled. Tendermint's state/block/tx-index DBs are MemDBs that survive the crash unchanged; tx index is fed when the replica's Tendermint state reaches a height."),
  "C09": ("deterministic simulation at the storage seam: seeded operation sequences incl. dirty reopen (byte copy of the open goleveldb dir) and abandoned blocks, compared step by step with a three-layer map model and with a hash twin that executes only the surviving writes",
@@ -36,34 +36,34 @@ CLAIMED = {
  "C18": ("deterministic simulation with process-level observation: hostile-value, garbage, impersonating and known-lethal inputs go through CheckTx and into blocks on one replica per worker process; worker death, escaped panics, self-shutdown, a per-call stall limit, a per-block liveness probe and an unchanged-behaviour twin (never sees the transactions answered with an error code) are the oracles",
          "Seeded search over reached chain states x structure-aware hostile inputs of every kind; process exits are captured by re-running the seed with trace streaming so that the killing prefix becomes the replay file.",
          "Go runtime fatal errors that cannot be recovered (stack exhaustion, out of memory) are only observed as process death, not attributed further. The stall limit (30 s of real time for one ABCI call, several thousand times its normal duration) is the only place where a real clock decides; a stall is confirmed by a replay in a fresh process. Runs that call BLOCKHASH go without twin (the raw-mode twin has no block store)."),
- "C10": ("deterministic simulation: seeded staking/evidence/governance histories around the top-count and minimum-stake boundaries with absent signers and option changes; the real Tendermint BlockExecutor judges every EndBlock update, an election model recomputed from the previous block's dump judges every positive update and the converged set",
+ "C10": ("deterministic simulation: seeded staking/evidence/governance histories around the top-count and minimum-stake boundaries with absent signers and option changes; the real Tendermint BlockExecutor judges every EndBlock update, an election model recomputed from the previous block's dump judges every positive update and the converged set; in half of the runs the observed replica is killed and restarted between blocks (bounce), in a third it also serves interleaved mempool CheckTx calls",
          "Seeded search over block histories (boundary staking client, allegations, missed-votes freezes, governance changes of the staking options, fork heights); oracles: Tendermint accepts the updates, every positive update is entitled (stake >= minimum, not frozen, power == stake, top count, no higher stake passed over), active set converges to the model's election within 5 quiet blocks.",
          "The election model is recomputed from decoded records of the previous block; tie order among equal stakes is not judged (property is silent). Quiet phases are part of the generated schedule."),
- "C11": ("deterministic simulation: seeded stake/unstake/withdraw histories by several delegators and validators interleaved with block progress, verdicts, freezes and maturity-option changes; own per-(validator, delegator) chunk model advanced from decoded transactions and dumps",
+ "C11": ("deterministic simulation: seeded stake/unstake/withdraw histories by several delegators and validators interleaved with block progress, verdicts, freezes and maturity-option changes; own per-(validator, delegator) chunk model advanced from decoded transactions and dumps; in half of the runs the observed replica is killed and restarted between blocks (bounce), in a third it also serves interleaved mempool CheckTx calls",
          "Seeded search over interleavings of staking operations with maturity heights, freezes/releases and option changes; oracles: record sums agree, nothing unlocks before its due height or twice, withdrawn <= staked - penalties, nothing leaves a frozen validator, exact payout in accountable blocks.",
          "Penalty size/recipient, late maturity and STAKE while frozen are not judged (property silent). One genuine defect is listed as a known finding (WITHDRAW naming another validator drains amounts unstaked from a frozen one)."),
- "C12": ("deterministic simulation: seeded delegate/undelegate/withdraw/reinvest histories with several operations per block and delegator, pool donations and block progress past the maturity heights; per-block ledger oracle from the decoded dump",
+ "C12": ("deterministic simulation: seeded delegate/undelegate/withdraw/reinvest histories with several operations per block and delegator, pool donations and block progress past the maturity heights; per-block ledger oracle from the decoded dump; in half of the runs the observed replica is killed and restarted between blocks (bounce), in a third it also serves interleaved mempool CheckTx calls",
          "Seeded search over histories and maturity schedules; oracles: pool balance >= (== without donations) sum of active delegations, pending records appear exactly at height + maturity and are paid exactly once to the delegator, reward withdrawals never exceed accrued balance, every account's balance delta is explained.",
          "Maturity option is read from the dump of H-1; blocks containing successful transactions of kinds the model does not account for are judged with >= only."),
  "C13": ("deterministic simulation with crash injection: reference replica and a victim restarted at PRNG-chosen points inside calculation cycles, simulated block clock stepping across cycle/year/burnout boundaries, absent signers; pulled amount observed from the real PullRewards on a throw-away cache-less store",
          "Seeded search over validator sets, voting patterns, block-time sequences (regular and wild) and restart points; oracles: credited <= pulled(H), pulled(H) <= supply left at cycle start (or burnout cap), withdrawn <= matured per validator, restarted victim's transcript equals the reference's.",
          "pulled(H) is observed, not re-implemented; year bookkeeping is the harness's own; a cycle shorter than one second (division by zero in the block-count estimate, negative pull) suspends oracle 2 for the run. Split among validators/delegators/proposer is not judged."),
- "C14": ("deterministic simulation: seeded governance histories (create/fund/vote/cancel/withdraw/expire/finalise from any account at heights before, at and after the deadlines) interleaved with validator-set changes and block progress; own per-proposal lifecycle and fund model from decoded transactions and dumps",
+ "C14": ("deterministic simulation: seeded governance histories (create/fund/vote/cancel/withdraw/expire/finalise from any account at heights before, at and after the deadlines) interleaved with validator-set changes and block progress; own per-proposal lifecycle and fund model from decoded transactions and dumps; in half of the runs the observed replica is killed and restarted between blocks (bounce), in a third it also serves interleaved mempool CheckTx calls",
          "Seeded search over histories relative to funding/voting deadlines and snapshot times; oracles: stage order, expiry only after the voting deadline, pass/fail per recorded votes of the snapshotted validators, config change applied exactly once for passed proposals only, refunds in full on cancel/missed goal, distribution once at finalisation <= contributed, nothing overdue.",
          "The overdue bound (blocks until the node's own hooks must have acted) is the harness's choice. One genuine defect is a known finding (expired proposals are never finalised, funds stuck)."),
- "C15": ("deterministic simulation: seeded lock/redeem submissions (duplicates, replays, front-running) and witness finality reports in random orders with lying minorities/coalitions, non-witnesses, repeated votes, interleaved with block-end tracker transitions; reference tracker model from decoded transactions, own rlp/abi decoding and dumps",
+ "C15": ("deterministic simulation: seeded lock/redeem submissions (duplicates, replays, front-running) and witness finality reports in random orders with lying minorities/coalitions, non-witnesses, repeated votes, interleaved with block-end tracker transitions; reference tracker model from decoded transactions, own rlp/abi decoding and dumps; in half of the runs the observed replica is killed and restarted between blocks (bounce), in a third it also serves interleaved mempool CheckTx calls",
          "Seeded search over orders and mixtures of reports and submissions; oracles: every wrapped credit that is not a transfer is a mint (> 2/3 yes of recorded witnesses, once per Ethereum transaction, exact amount, to the submitter) or a refund (> 2/3 no, once, exact amount), redeem debited at creation, one tracker per Ethereum transaction, proper witness reports are not rejected, supply counter == circulation.",
          "Refund patience 5 blocks (harness choice); supply cap not judged (property names none); Ethereum/Bitcoin chains are absent, witnesses are played by the generator."),
  "C16": ("deterministic simulation at the EVM state seam: seeded sequences of StateDB interface calls and EVM messages with arbitrary snapshot/revert nesting, transaction ends, block commits, discarded sessions, adapter re-creation and restarts, executed side by side on the chain's adapter and on go-ethereum's own in-memory StateDB",
          "Seeded search (25 cases per run, 80% short) over operation sequences and bytecode programs; oracles: differential (return values, per-address state, refund, logs, message results, gas, errors), store footprint of finalisation, final scan of the contract store.",
          "Reference is go-ethereum v1.10.8 core/state with the same starting accounts. One genuine defect is a known finding (ForEachStorage hands hashed keys to the callback); a case goes on after it."),
- "C17": ("deterministic simulation: seeded mixes of native and OLVM transactions in shuffled blocks; the scheduler's before/after-DeliverTx sites photograph the deliver state around every transaction; ledger-unity and exact-charge oracles from the snapshots",
+ "C17": ("deterministic simulation: seeded mixes of native and OLVM transactions in shuffled blocks; the scheduler's before/after-DeliverTx sites photograph the deliver state around every transaction; ledger-unity and exact-charge oracles from the snapshots; in half of the runs the observed replica is killed and restarted between blocks (bounce)",
          "Seeded search over orders of native/OLVM transactions within and across blocks (creations, reverting/out-of-gas calls, nonce gaps, low balance, wrong chain id); oracles: native balance == EVM-visible balance at every snapshot, failed OLVM transaction changes no key, executed one moves exactly gasUsed*price + value and raises the nonce by one.",
          "Snapshots read the block's dirty set over the committed tree without metering; contracts that move value internally are judged on totals only."),
- "C19": ("deterministic simulation: seeded allegation/vote/release histories from validators and outsiders with concurrent requests, changing active sets, absent signers and simulated clock jumps across the release time; own request/vote/freeze model from decoded transactions, dumps, header times and the resulting Tendermint set",
+ "C19": ("deterministic simulation: seeded allegation/vote/release histories from validators and outsiders with concurrent requests, changing active sets, absent signers and simulated clock jumps across the release time; own request/vote/freeze model from decoded transactions, dumps, header times and the resulting Tendermint set; in half of the runs the observed replica is killed and restarted between blocks (bounce), in a third it also serves interleaved mempool CheckTx calls",
          "Seeded search over histories, shares (34-67%), penalties and release times; oracles: verdicts only when distinct currently active validators cross the share, guilty => frozen, exact penalty with bounty bound, out of the validator set, no stake/unstake/withdraw/allegation/vote while frozen, release only after the release time, outsiders cannot open or vote.",
          "A voter counts as currently active if active at H-1 or H (both accepted); missed-votes freezing rules are not judged."),
- "C20": ("deterministic simulation: seeded ONS histories by owners and strangers (races of two transactions on one name in a block, expiry heights crossed by block progress, governance price changes mid-run); registry model walked in block order from decoded transactions with harness-verified signers, record differences of the dumps must be explained",
+ "C20": ("deterministic simulation: seeded ONS histories by owners and strangers (races of two transactions on one name in a block, expiry heights crossed by block progress, governance price changes mid-run); registry model walked in block order from decoded transactions with harness-verified signers, record differences of the dumps must be explained; in half of the runs the observed replica is killed and restarted between blocks (bounce), in a third it also serves interleaved mempool CheckTx calls",
          "Seeded search over histories across expiry heights and price-option changes; oracles: one owner per name, changes only by the current owner or a paid purchase (>= asking/base price to the seller), expiry set computed by own arithmetic from payment and options, sub-names follow their parent, nobody else is credited.",
          "Ambiguities the property leaves open are accepted both ways (now = H or H-1, base price charged once or twice on purchase)."),
 }
